@@ -13,6 +13,7 @@ import (
 	"strings"
 
 	"github.com/ipld/go-ipld-prime/datamodel"
+	"github.com/ipld/go-ipld-prime/node/basicnode"
 )
 
 type Kind uint8
@@ -38,6 +39,7 @@ type V struct {
 	K    Kind
 	B    bool
 	I    int64
+	U    bool // Int only: an unsigned value above the int64 range; I holds its 64 bits
 	F    float64
 	S    string // string value; link: CID binary (KeyString)
 	Bs   []byte
@@ -45,9 +47,14 @@ type V struct {
 	Vals []*V // map values (parallel to Keys) or list items
 }
 
-func NullV() *V            { return &V{K: Null} }
-func BoolV(b bool) *V      { return &V{K: Bool, B: b} }
-func IntV(i int64) *V      { return &V{K: Int, I: i} }
+func NullV() *V       { return &V{K: Null} }
+func BoolV(b bool) *V { return &V{K: Bool, B: b} }
+func IntV(i int64) *V { return &V{K: Int, I: i} }
+
+// UintV is an integer given as uint64 (values above MaxInt64 are only reachable through datamodel.UintNode).
+func UintV(u uint64) *V {
+	return &V{K: Int, I: int64(u), U: u > math.MaxInt64}
+}
 func FloatV(f float64) *V  { return &V{K: Float, F: f} }
 func StringV(s string) *V  { return &V{K: String, S: s} }
 func BytesV(b []byte) *V   { return &V{K: Bytes, Bs: b} }
@@ -82,7 +89,7 @@ func Equal(a, b *V) bool {
 	case Bool:
 		return a.B == b.B
 	case Int:
-		return a.I == b.I
+		return a.I == b.I && a.U == b.U
 	case Float:
 		// bit-exact: +0.0 and -0.0 are different values (they encode to different bytes and links)
 		return math.Float64bits(a.F) == math.Float64bits(b.F)
@@ -179,7 +186,11 @@ func (v *V) render(sb *strings.Builder, lim int) {
 	case Bool:
 		sb.WriteString(strconv.FormatBool(v.B))
 	case Int:
-		sb.WriteString(strconv.FormatInt(v.I, 10))
+		if v.U {
+			sb.WriteString(strconv.FormatUint(uint64(v.I), 10))
+		} else {
+			sb.WriteString(strconv.FormatInt(v.I, 10))
+		}
 	case Float:
 		sb.WriteString("f" + strconv.FormatFloat(v.F, 'g', -1, 64))
 	case String:
@@ -259,6 +270,9 @@ func (v *V) hash(h *uint64) {
 		}
 	case Int:
 		mixu(h, uint64(v.I))
+		if v.U {
+			mixb(h, 0xf1)
+		}
 	case Float:
 		mixu(h, math.Float64bits(v.F))
 	case String, Link:
@@ -299,6 +313,11 @@ func FromNode(n datamodel.Node) (*V, error) {
 		b, err := n.AsBool()
 		return BoolV(b), err
 	case datamodel.Kind_Int:
+		if un, ok := n.(datamodel.UintNode); ok {
+			// the only way to read an unsigned value above the int64 range
+			u, err := un.AsUint()
+			return UintV(u), err
+		}
 		i, err := n.AsInt()
 		return IntV(i), err
 	case datamodel.Kind_Float:
@@ -391,6 +410,9 @@ func Assemble(na datamodel.NodeAssembler, v *V, lf LinkFn, perm func(n int) []in
 	case Bool:
 		return na.AssignBool(v.B)
 	case Int:
+		if v.U {
+			return na.AssignNode(basicnode.NewUint(uint64(v.I)))
+		}
 		return na.AssignInt(v.I)
 	case Float:
 		return na.AssignFloat(v.F)
